@@ -2,7 +2,9 @@ package checks
 
 import (
 	"bytes"
+	"encoding/binary"
 	"fmt"
+	"hash/crc32"
 	"sync"
 	"sync/atomic"
 )
@@ -145,4 +147,42 @@ func parallelReplay(table []func() []byte, iters int, seed uint64) (calls int64,
 		return n.Load(), d
 	}
 	return n.Load(), ""
+}
+
+// crc32Twin returns a string of the same length as s, different from s, with the same CRC-32 (IEEE): the
+// four bytes at position at..at+3 of a copy whose byte at+4 was changed are recomputed so that the checksum
+// comes out equal. (Identifiers that are told apart by a checksum of their bytes collide on such pairs;
+// len(s) >= at+5.) The patch bytes are arbitrary binary.
+func crc32Twin(s []byte, at int) []byte {
+	tab := crc32.IEEETable
+	fwd := func(state uint32, b []byte) uint32 {
+		for _, x := range b {
+			state = tab[byte(state)^x] ^ (state >> 8)
+		}
+		return state
+	}
+	back := func(state uint32, b []byte) uint32 { // state before processing b, given the state after
+		for i := len(b) - 1; i >= 0; i-- {
+			var idx int
+			for j := 0; j < 256; j++ {
+				if tab[j]>>24 == state>>24 {
+					idx = j
+					break
+				}
+			}
+			state = (state^tab[idx])<<8 | uint32(byte(idx)^b[i])
+		}
+		return state
+	}
+	t := append([]byte{}, s...)
+	t[at+4] ^= 0x5a
+	target := fwd(^uint32(0), s)        // internal state after all of s (before the final inversion)
+	need := back(target, t[at+4:])      // state required right after the four patch bytes
+	w := back(need, []byte{0, 0, 0, 0}) // a state from which four zero bytes lead to `need`
+	x := w ^ fwd(^uint32(0), t[:at])    // xor of the patch bytes (little endian) into the running state
+	binary.LittleEndian.PutUint32(t[at:], x)
+	if crc32.ChecksumIEEE(t) != crc32.ChecksumIEEE(s) || bytes.Equal(t, s) {
+		panic("harness: crc32Twin failed to build a collision")
+	}
+	return t
 }
